@@ -330,6 +330,11 @@ def run(ctx):
             elif contains_call(sx, lambda n: n.startswith("data::Data::")):
                 second_bundled = True
             good = first_user and second_bundled
+        if not good:
+            # the same precedence written as a `match` / nested conditionals: read from the look-up's return paths
+            ap_ = _ph.autocorrect_paths(prog)
+            if ap_ is not None and ap_["user_first"] and ap_["bundled"]:
+                good = True
         if good:
             r3.ok("user-first", "look-up = user entry .or_else(bundled entry)")
         else:
